@@ -4,6 +4,7 @@
 //
 //   sh   <step>*     one hash.StringHash `cur` (plus `old`, the source of the last copy/merge)
 //        (put K V) (delete K) (get K) (cia K V) (copy) (merge (K V)*) (putall (K V)*) (freeze) (swap) (empty)
+//        (equals) (views)
 //   hash <step>*     a pool of immutable types.Hash values (and *MutableHashValue), addressed by position
 //        (wrap P*) (parse P*) (parsea P*) (build P*) (put I k v) (merge I J) (delete I k) (deleteAll I (k*))
 //        (get I k) (get4 I xSTR) (mnew) (mput I k v) (mputall I J)            P ::= (k v)
@@ -329,7 +330,7 @@ func shUniverse(steps []sx.Sexp) ([]string, bool) {
 				}
 				add(p.List[0].Atom)
 			}
-		case "copy", "freeze", "swap", "empty":
+		case "copy", "freeze", "swap", "empty", "equals", "views":
 			if len(a) != 0 {
 				return nil, false
 			}
@@ -490,6 +491,39 @@ func execSH(steps []sx.Sexp) core.Result {
 			cur = hash.EmptyStringHash
 			ref = newRef()
 			ref.frozen = true
+		case "equals":
+			if old == nil {
+				res = "skip"
+				break
+			}
+			run(func() { res = op + "=" + sx.B(cur.Equals(old, nil)) + "," + sx.B(old.Equals(cur, nil)) })
+			same := len(ref.keys) == len(oldRef.keys)
+			for _, k := range ref.keys {
+				same = same && oldRef.has(k) && oldRef.vals[k] == ref.vals[k]
+			}
+			if exp := op + "=" + sx.B(same) + "," + sx.B(same); fault == nil && res != exp {
+				fs.add("sh-equals", "step %d: Equals answered %s, reference %s", si, res, exp)
+			}
+		case "views":
+			run(func() {
+				ks, vs := []string{}, []string{}
+				cur.EachKey(func(k string) { ks = append(ks, sx.Str(k).Atom) })
+				cur.EachValue(func(v interface{}) { vs = append(vs, iv(v)) })
+				all := cur.AllPair(func(_ string, v interface{}) bool { return v != int64(1) })
+				any := cur.AnyPair(func(_ string, v interface{}) bool { return v == int64(1) })
+				res = op + "=K[" + strings.Join(ks, " ") + "] V[" + strings.Join(vs, " ") + "] " + sx.B(cur.Empty()) + sx.B(all) + sx.B(any)
+			})
+			vs := []string{}
+			all, any := true, false
+			for _, k := range ref.keys {
+				vs = append(vs, ref.vals[k])
+				all = all && ref.vals[k] != "1"
+				any = any || ref.vals[k] == "1"
+			}
+			exp := op + "=K[" + strings.Join(ref.keys, " ") + "] V[" + strings.Join(vs, " ") + "] " + sx.B(len(ref.keys) == 0) + sx.B(all) + sx.B(any)
+			if fault == nil && res != exp {
+				fs.add("sh-views-differ", "step %d: %s, reference %s", si, res, exp)
+			}
 		}
 		o, of := shObs(cur, uni)
 		if fault == nil {
@@ -1757,6 +1791,10 @@ func randSH(r *rand.Rand, n int) string {
 			ops = append(ops, "(merge "+randSHPairs(r)+")")
 		case x < 92:
 			ops = append(ops, "(putall "+randSHPairs(r)+")")
+		case x < 93:
+			ops = append(ops, "(equals)")
+		case x < 94:
+			ops = append(ops, "(views)")
 		case x < 95:
 			ops = append(ops, "(swap)")
 		case x < 96:
